@@ -130,7 +130,7 @@ func TestC13(t *testing.T) {
 	c := ev.For("C13")
 	defer c.Done()
 	c.Rule("rapid: a completed value of any encodable kind (same generator as C06) and a history of 2..12 operations drawn from {Len, MarshalBinary, size+encode through an enclosing container, decode the latest encoding into a fresh receiver}. " +
-		"Oracle: all Len results equal; all encodings byte-equal (first vs every later one); the value's deep dump (all fields, unexported too) after the first encoding == after the last operation " +
+		"Oracle: all Len results equal; all encodings byte-equal (first vs every later one); the value as a caller sees it (all exported fields, recursively) after the first encoding == after the last operation " +
 		"(write-backs must be idempotent); every decode of the (identical) encodings during and after the history gives the same deep dump. " +
 		"Non-trivial: the history has >= 2 encodings with a Len in between or goes through a container; distinct by hash of (kind, bytes, history).")
 	c.Assume("the first Len()/MarshalBinary may complete derived fields (header length, rounded lengths): the value is compared from its state after the first encoding onwards, not with its state before")
@@ -199,7 +199,7 @@ func TestC13(t *testing.T) {
 				encs++
 				if firstEnc == nil {
 					firstEnc = b
-					dumpAfterFirst = obs.Deep(v)
+					dumpAfterFirst = c13View(v)
 				} else {
 					if sawLenSinceEnc {
 						lenBetween = true
@@ -257,7 +257,7 @@ func TestC13(t *testing.T) {
 			c.Report(rt, "C13|"+fmt.Sprintf("%T", v)+"|encode-unrepeatable", fmt.Sprintf("%s: final encoding %s %s differs from the first: %s vs %s; history %v", gv.kind, fr, msg, hx(b), hx(firstEnc), hist), rep())
 			return
 		}
-		if d := obs.Deep(v); d != dumpAfterFirst {
+		if d := c13View(v); d != dumpAfterFirst {
 			c.Report(rt, "C13|"+fmt.Sprintf("%T", v)+"|value-disturbed", fmt.Sprintf("%s: the value changed between its first encoding and the end of the history %v: %s", gv.kind, hist, obs.FirstDiff(dumpAfterFirst, d)), rep())
 			return
 		}
@@ -278,6 +278,12 @@ func TestC13(t *testing.T) {
 		}
 	})
 }
+
+// c13View is what a caller can see of a value: its exported fields, recursively.
+// (Unexported state may legitimately change between calls - a cache filled on
+// the second call - as long as no later result does; results are compared
+// directly.)
+func c13View(v util.Message) string { return obs.Dump(v, obs.Opts{ExportedOnly: true}) }
 
 // c13LooseIHL finds an IPv4 header with options inside v and, in half of the
 // cases, lowers its IHL below what the options need (0, as NewIPv4 leaves it, or
